@@ -293,7 +293,7 @@ func c02Ring(c *Ctx) {
 	okExpr := newExpr == ":= (allocStartIdx+oldLpmIndex)%maxEntries"
 	maxIsLimit := false
 	ast.Inspect(f.Body, func(m ast.Node) bool {
-		if as, ok := m.(*ast.AssignStmt); ok && len(as.Lhs) == 1 && core.ExprStr(as.Lhs[0]) == "maxEntries" && strings.Contains(core.ExprStr(as.Rhs[0]), "consts.MaxMatchSetLen") {
+		if as, ok := m.(*ast.AssignStmt); ok && len(as.Lhs) == 1 && core.ExprStr(as.Lhs[0]) == "maxEntries" && (nospace(core.ExprStr(as.Rhs[0])) == "uint32(consts.MaxMatchSetLen)" || nospace(core.ExprStr(as.Rhs[0])) == "consts.MaxMatchSetLen") {
 			maxIsLimit = true
 		}
 		return true
